@@ -153,7 +153,8 @@ def c17(tier, seed):
 
 
 def fb(binary, variant, sub, seed, k, threads, mode="jitter", timeout=400, **kw):
-    args = dict(sub=sub, seed=S(seed, k), threads=threads, mode=mode)
+    # 8M context switches without a single completed client operation = livelock (logical steps, not time)
+    args = dict(sub=sub, seed=S(seed, k), threads=threads, mode=mode, livelock_hits=8000000)
     args.update(kw)
     return Run(variant, BINARIES[binary], args, cpu=min(threads, 8), timeout=timeout, tag=sub)
 
@@ -186,7 +187,7 @@ def fb_plan(tier, seed, binary, sub, stalls, trials_q, trials_t, threads_q=(1, 2
     if tsan:
         for thr in ((4,) if q else (2, 4, 8)):
             k += 1
-            runs.append(fb(binary, "tsan", sub, seed, k, thr, mode="monitor", trials=max(2, trials // 6), timeout=900, **extra))
+            runs.append(fb(binary, "tsan", sub, seed, k, thr, mode="monitor", trials=max(3, trials // 4), timeout=900, **extra))
     if pinned and not q:
         for thr in (4, 16):
             k += 1
@@ -371,18 +372,19 @@ def c04(tier, seed):
     runs = fb_plan(tier, seed, "h_join", "join", ["MAINT_PUBLISH", "SCHEDULED", "SET_AND_WAIT", "SWITCH_PRE", "SWITCH_POST", "STEAL"], 40, 300,
                    extra=dict(livelock_prop="C04", drivers=8), stall_every=3)
     k = 900
-    for sc in range(7):
+    for sc in range(8):
         k += 1
         runs.append(fb("h_join", "mon", "join", seed, k, 4 if q else 8, mode="jitter", trials=30 if q else 300, scenario=sc, livelock_prop="C04"))
     return dict(runs=runs,
                 rule="a case = one scenario trial: one target fiber (random pre-delay, unique return token, gated alive when a second use of its "
                 "handle is generated) and 1-2 actors with random delays, 8 trial drivers running concurrently; classes S1 join x finish, S2 repeated "
                 "tryjoin x finish, S3 detach x finish, S4 two joiners (join/tryjoin) racing, S5 join+tryjoin after detach, S6 detach while a joiner "
-                "is blocked, S7 double detach. Oracles: success only after the target's last statement and with its token, at most one success, "
+                "is blocked, S7 double detach, S8 join of a running fiber by a fiber whose earlier read was ended by close(). Oracles: success only after the target's last statement and with its token, at most one success, "
                 "S4 exactly one success and one failure, S5/S6/S7 error returns, ghost reclaim rules (never while running/queued/unfinished, "
                 "never twice), every harness fiber reclaimed once the runtime settles, ASan on fiber_t and stacks.",
                 min_events={"join_trials": 500, "join_joiner_arrived_first": 5, "join_target_finished_first": 5, "join_tryjoin_not_yet": 10,
-                            "S6 detach while a joiner is blocked": 10, "S4 second joiner while one is blocked": 10},
+                            "S6 detach while a joiner is blocked": 10, "S4 second joiner while one is blocked": 10,
+                            "S8 join of a running fiber after a close-interrupted read": 5},
                 assumptions=ASSUME_COMMON + ["no handle use after a successful join/tryjoin/detach of a finished fiber (user UB, not generated)"])
 
 
